@@ -41,6 +41,8 @@ theorem timer_table_spec :
     TimerTable.keepaliveType = 4 ∧ TimerTable.holdNotify = (4, 0) ∧
     TimerTable.openWaitNotify = (5, 1) ∧ TimerTable.h0KaNotify = (2, 6) ∧
     TimerTable.kaNetNotify = (4, 0) ∧
+    TimerTable.openConfirmHasTimer = true ∧ TimerTable.openConfirmNotify = (4, 0) ∧
+    TimerTable.openConfirmUnexpected = (5, 2) ∧
     TimerTable.kinds.map (fun r => (r.2.1, r.2.2 == 0)) =
       [(252, false), (254, false), (253, false), (1, true), (2, true), (3, true), (4, true), (5, true), (6, true)] := by
   decide
@@ -180,6 +182,115 @@ theorem zero_in_either_open_disables_timers (l p tR tS : Nat) (h : l = 0 ∨ p =
   rw [establish_eq, h0, (runEv_eq_run _ evs).1, (runEv_eq_run _ evs).2]
   exact ⟨(h0_never_fires tR tS (pollsOf evs)).1, h0_no_periodic_ka tR tS (pollsOf evs)⟩
 
+/-! ### OPENCONFIRM (the hold timer before the first KEEPALIVE)
+
+`openConfirm H tW arrivals now`: the wait for the first KEEPALIVE was entered when the clock read
+`tW` (the peer's OPEN has been read, our KEEPALIVE written); `arrivals` is what `read_message` has
+returned since, NOPs included, with the clock reading of each.  The timer of this phase is a single
+`asyncio.wait_for(…, timeout=H)`: it is not re-armed by anything and only the first *complete* real
+message ends it; bytes of a message still incomplete at `tW + H` s do not count as received. -/
+
+/-- **OPENCONFIRM: a silent peer is closed with 4/0 exactly H seconds after the wait began.**
+    For every H > 0: if no real message is complete within `H·1000` ms of `tW`, then from
+    `tW + H·1000` on the outcome is NOTIFICATION 4/0, raised at `tW + H·1000` (no truncation slack:
+    the event loop's clock, not `int(time.time())`) — whatever arrives later. -/
+theorem c12_openconfirm_expires (H tW now : Nat) (hH : H ≠ 0) (arrivals : List Poll)
+    (hsil : ∀ q ∈ arrivals, q.kind.real = true → tW + H * 1000 < q.t)
+    (hnow : tW + H * 1000 ≤ now) :
+    openConfirm H tW arrivals now = .notify (tW + H * 1000) 4 0 := by
+  unfold openConfirm
+  cases hf : firstReal arrivals with
+  | none => simp [hH, hnow, openConfirmNotify_eq]
+  | some p =>
+    obtain ⟨hm, hr⟩ := firstReal_mem arrivals p hf
+    have := hsil p hm hr
+    simp [hH, this, openConfirmNotify_eq]
+
+/-- **OPENCONFIRM: never closed for a silence shorter than H.** If the outcome is 4/0 then H > 0,
+    it was raised exactly `H·1000` ms after the wait began, and every real message of the (time
+    ordered) arrival sequence came strictly later: nothing was received between the peer's OPEN
+    and the expiry.  So the sentence holds in OPENCONFIRM too — with the reading that "received"
+    means a complete message: the single `wait_for` is not re-armed by the first bytes of a
+    KEEPALIVE that is still incomplete when it fires. -/
+theorem c12_openconfirm_not_early (H tW now prev t : Nat) (arrivals : List Poll) (hm : Mono prev arrivals)
+    (h : openConfirm H tW arrivals now = .notify t 4 0) :
+    H ≠ 0 ∧ t = tW + H * 1000 ∧ ∀ q ∈ arrivals, q.kind.real = true → t < q.t := by
+  unfold openConfirm at h
+  cases hf : firstReal arrivals with
+  | none =>
+    rw [hf] at h
+    simp only at h
+    by_cases hc : H ≠ 0 ∧ tW + H * 1000 ≤ now
+    · rw [if_pos hc] at h
+      injection h with h1 _ _
+      refine ⟨hc.1, h1.symm, ?_⟩
+      intro q hq hr
+      have := firstReal_none arrivals hf q hq
+      rw [this] at hr; cases hr
+    · rw [if_neg hc] at h; cases h
+  | some p =>
+    rw [hf] at h
+    simp only at h
+    by_cases hc : H ≠ 0 ∧ tW + H * 1000 < p.t
+    · rw [if_pos hc] at h
+      injection h with h1 _ _
+      refine ⟨hc.1, h1.symm, ?_⟩
+      intro q hq hr
+      have := firstReal_le prev arrivals hm p hf q hq hr
+      omega
+    · rw [if_neg hc] at h
+      by_cases hr : H ≠ 0 ∧ p.t = tW + H * 1000
+      · rw [if_pos hr] at h; cases h
+      · rw [if_neg hr] at h
+        by_cases hk : p.kind.isKeepalive = true
+        · simp [hk] at h
+        · simp [hk, openConfirmUnexpected_eq] at h
+
+/-- **OPENCONFIRM with hold time 0: no timer.** Whatever arrives and however long nothing does,
+    the outcome is never 4/0 (and never a race with a timeout): the session waits in OPENCONFIRM
+    until the first real message — KEEPALIVE → established, anything else → 5/2. -/
+theorem c12_openconfirm_hold0 (tW now : Nat) (arrivals : List Poll) :
+    (∀ t c sb, openConfirm 0 tW arrivals now = .notify t c sb → (c, sb) = (5, 2)) ∧
+    (∀ t, openConfirm 0 tW arrivals now ≠ .race t) ∧
+    (firstReal arrivals = none → openConfirm 0 tW arrivals now = .waiting) := by
+  unfold openConfirm
+  cases hf : firstReal arrivals with
+  | none => simp
+  | some p =>
+    by_cases hk : p.kind.isKeepalive = true
+    · simp [hk]
+    · simp [hk, openConfirmUnexpected_eq]
+      intro t c sb _ h1 h2; exact ⟨h1.symm, h2.symm⟩
+
+/-- **OPENCONFIRM: a KEEPALIVE in time establishes the session**, at the instant it is read. -/
+theorem c12_openconfirm_keepalive_in_time (H tW now : Nat) (arrivals : List Poll) (p : Poll)
+    (hf : firstReal arrivals = some p) (hk : p.kind.isKeepalive = true)
+    (ht : H = 0 ∨ p.t < tW + H * 1000) :
+    openConfirm H tW arrivals now = .established p.t := by
+  unfold openConfirm
+  rw [hf]
+  have h1 : ¬ (H ≠ 0 ∧ tW + H * 1000 < p.t) := by omega
+  have h2 : ¬ (H ≠ 0 ∧ p.t = tW + H * 1000) := by omega
+  simp [h1, h2, hk]
+
+/-- **The first KEEPALIVE moves the session to the established timers.** After a first KEEPALIVE
+    read at `a`, with negotiated H = min(our hold time, the peer's) > 0, the established-phase
+    bounds hold with the silence counted from `a` (not from the creation of the `ReceiveTimer`):
+    never 4/0 before `H·1000` ms of silence, closed once polled at `(H+1)·1000` ms of silence. -/
+theorem c12_openconfirm_handover (l p tC a tS : Nat) (hH : min l p ≠ 0) (ps : List Poll) :
+    (∀ t c sb, ((Sess.afterOpenConfirm l p tC a tS).run ps).1.closed = some (t, c, sb) →
+      ∃ pre q post, ps = pre ++ q :: post ∧ q.t = t ∧ c = 4 ∧ sb = 0 ∧ q.kind.real = false ∧
+        lastRealMs a pre + min l p * 1000 < t) ∧
+    (ps ≠ [] → lastRealMs a ps + (min l p + 1) * 1000 ≤ lastPollMs tS ps →
+      ((Sess.afterOpenConfirm l p tC a tS).run ps).1.closed ≠ none) := by
+  have inv := inv_afterOpenConfirm l p tC a tS hH
+  refine ⟨?_, ?_⟩
+  · intro t c sb hc
+    obtain ⟨pre, q, post, h1, h2, h3, h4, h5, h6, _⟩ := closed_split _ hH ps _ a tS inv t c sb hc
+    exact ⟨pre, q, post, h1, h2, h3, h4, h5, h6⟩
+  · intro hne hs
+    exact expired_of_silence _ hH ps _ a tS tS inv hne hs
+
 /-- **OPEN wait.** A peer OPEN that is not complete within `openwait` seconds (or never) ends the
     attempt with 5/1; one that is complete earlier does not.  (At exactly `openwait` the two
     callbacks are ready in the same event-loop iteration; asyncio decides.) -/
@@ -243,6 +354,22 @@ example : ((Sess.establish 180 0 0 0).runEv
 /-- H = 9 with an UPDATE written just before every due instant: the KEEPALIVEs still go out -/
 example : kaTimes ((Sess.establish 9 180 0 0).runEv
     [.out 2900 .update, .poll (nop 3000), .out 5900 .update, .out 5950 .eor, .poll (nop 6000)]).2 = [3000, 6000] := by decide
+
+/-- OPENCONFIRM, H = 3, wait entered at 1000.250: silent → 4/0 at 1003.250 (exactly 3000 ms, no
+    whole-second slack); a KEEPALIVE complete at 1003.249 establishes; one at 1003.251 is too late;
+    NOPs and an UPDATE: 5/2; before the deadline: still waiting -/
+example : openConfirm 3 1000250 [nop 1000350, nop 1003200] 1003250 = .notify 1003250 4 0 := by decide
+example : openConfirm 3 1000250 [nop 1000350] 1003249 = .waiting := by decide
+example : openConfirm 3 1000250 [nop 1000350, ka 1003249] 1009000 = .established 1003249 := by decide
+example : openConfirm 3 1000250 [nop 1000350, ka 1003251] 1009000 = .notify 1003250 4 0 := by decide
+example : openConfirm 3 1000250 [upd 1001000, ka 1001001] 1009000 = .notify 1001000 5 2 := by decide
+/-- hold time 0: a day in OPENCONFIRM, then the KEEPALIVE -/
+example : openConfirm 0 0 [nop 1000] 86400000 = .waiting ∧
+    openConfirm 0 0 [nop 1000, ka 86400000] 86400001 = .established 86400000 := by decide
+/-- the established timer counts from the first KEEPALIVE (read at 2.900 s), not from 0 -/
+example : ((Sess.afterOpenConfirm 3 180 0 2900 2900).run [nop 5999]).1.closed = none ∧
+    ((Sess.afterOpenConfirm 3 180 0 2900 2900).run [nop 5999, nop 6000]).1.closed = some (6000, 4, 0) := by decide
+example : Mono 0 [nop 1000350, ka 1003251] := by simp [Mono, nop, ka]
 
 example : openWait 60 (some 59999) = .opened ∧ openWait 60 (some 60001) = .notify 5 1 := by decide
 
